@@ -9,3 +9,4 @@ open Cache
 #print axioms C06_detached_context
 #print axioms C06_bg_ctx_detached
 #print axioms C06_skipread_rebuilds_and_stores
+#print axioms C06_bg_build_context
